@@ -105,8 +105,9 @@ Proof. exact witness_adaptive. Qed.
     [IH5/Overlay.v] (finite map keyed by reversed paths with flagged attribute segments;
     [t_step], [run_t]).  [Bridge/PlainTree.v] defines the abstraction [abs] from the first to
     the second, the translation [conv] of operations and the common fragment ([common]: the
-    group objects of the call exist, the IH5 deletion-marker value is not written as data, a
-    copy does not go strictly below its own source; [conv] is undefined for the two
+    group objects of the call exist, the IH5 deletion-marker value is not written as data --
+    copies strictly below their own source included, both models graft a snapshot; [conv] is
+    undefined for the two
     ensure-style requests require_group / require_dataset).  The theorems below make
     "what is proved over the plain tree holds for the IH5 driver by C09" precise. *)
 
